@@ -10,9 +10,12 @@
 (* without a live link; a hand-over to the requested channel whenever any      *)
 (* parallel channel accepted) - TLC must find that they break the property     *)
 (* (SwitchPolicyMC_bad*.cfg), i.e. the invariants are able to see that class.  *)
+(* A third wrong variant, StaleHeight, decides with the HIGHEST height seen so  *)
+(* far instead of the current one (a switch that ignores epochs that go back:   *)
+(* after a reorg onto a shorter branch its height is not the chain's).          *)
 EXTENDS SwitchPolicy
 CONSTANTS MaxSteps, Variant, Guard
-VARIABLE n
+VARIABLES n, seen     \* steps taken; the highest height seen (history, used by the StaleHeight variant only)
 
 \* wrong variant 1: the batch is walked in some order and abandoned at the first channel without a live link
 BadUpdate(S, q) ==
@@ -20,22 +23,27 @@ BadUpdate(S, q) ==
     /\ (\A c \in S : Live(c)) => reached = S
     /\ adv' = [c \in Chans |-> IF c \in S THEN q ELSE adv[c]]
     /\ enf' = [c \in Chans |-> IF c \in reached THEN q ELSE enf[c]]
-    /\ out' = NoOut /\ UNCHANGED <<reg, elig, bw, last>>
+    /\ out' = NoOut /\ UNCHANGED <<reg, elig, bw, height, last>>
 \* wrong variant 2: when some candidate accepted, the requested channel is preferred among ALL candidates
 BadForward(h, r) ==
-  \E o \in (IF Known(r) /\ r.t = "chan" /\ Dests(enf, r, h, bw) # {} THEN {FwdTo(r.x)} ELSE AllowedSet(enf, r, h, bw)) :
+  \E o \in (IF Known(r) /\ r.t = "chan" /\ Dests(enf, r, h, bw, height) # {} THEN {FwdTo(r.x)}
+            ELSE AllowedSet(enf, r, h, bw, height)) :
     ForwardWith(h, r, bw, o)
+\* wrong variant 3: the decision uses the highest height seen, not the current one
+StaleForward(h, r) == \E o \in AllowedSet(enf, r, h, bw, seen) : ForwardWith(h, r, bw, o)
 
 VNext == CASE Variant = "ok" -> Next
            [] Variant = "stopAtMissing" ->
                 \/ \E S \in (SUBSET Chans) \ {{}}, q \in Policies : BadUpdate(S, q)
                 \/ \E c \in Chans : Add(c) \/ Remove(c) \/ Flush(c) \/ Unflush(c)
+                \/ \E m \in Heights : Epoch(m)
                 \/ FwdNext
            [] Variant = "honourRequested" -> EnvNext \/ \E h \in Htlcs, r \in Reqs : BadForward(h, r)
+           [] Variant = "staleHeight" -> EnvNext \/ \E h \in Htlcs, r \in Reqs : StaleForward(h, r)
 
-MCInit == Init /\ n = 0
-MCNext == n < MaxSteps /\ VNext /\ n' = n + 1
-MCSpec == MCInit /\ [][MCNext]_<<vars, n>>
+MCInit == Init /\ n = 0 /\ seen = Height0
+MCNext == n < MaxSteps /\ VNext /\ n' = n + 1 /\ seen' = IF height' > seen THEN height' ELSE seen
+MCSpec == MCInit /\ [][MCNext]_<<vars, n, seen>>
 
 \* vacuity guards (expected: violated)
 NeverShifted      == (Handed /\ last.req.t = "chan") => out.to = last.req.x
@@ -44,10 +52,14 @@ NeverStaleChannel == \A c \in Chans : reg[c] \in {"none", "gone", "pending"} => 
 NeverBwFail       == Failed => out.v # "InsufficientBalance"
 NeverSkipIneligible == (Handed /\ last.req.t = "chan") => elig[last.req.x]
 NeverNodeHop      == Handed => last.req.t = "chan"
+\* a forward is decided below the highest height seen (after a reorg), and the two heights decide differently
+NeverReorgDecides == out # NoOut =>
+  AllowedSet(adv, last.req, last.h, last.bw, last.height) = AllowedSet(adv, last.req, last.h, last.bw, seen)
 GuardInv == CASE Guard = "shifted" -> NeverShifted
               [] Guard = "policyFail" -> NeverPolicyFail
               [] Guard = "staleChannel" -> NeverStaleChannel
               [] Guard = "bwFail" -> NeverBwFail
               [] Guard = "skipIneligible" -> NeverSkipIneligible
               [] Guard = "nodeHop" -> NeverNodeHop
+              [] Guard = "reorgDecides" -> NeverReorgDecides
 =============================================================================
